@@ -262,6 +262,9 @@ def family_cases(fam, ty, tier, seed):
                            (0.0, 1.0, nxt(0.0, ty, 1)), (0.0, 1.0, nxt(1.0, ty, -1)), (-5.0, -1.0, -1.5), (1.0, nxt(1.0, ty, 3), nxt(1.0, ty, 1)),
                            (0.0, 100.0, 1.0), (1e6, 1e6 + 1, 1e6 + 0.5)]:
             add([mn, mx, mo])
+        # right-angled triangles (mode at an end) on supports that are not the unit interval
+        for mn, mx, mo in [(2.0, 10.0, 2.0), (2.0, 10.0, 10.0), (0.0, 0.25, 0.0), (0.0, 0.25, 0.25), (-3.0, 5.0, -3.0), (-3.0, 5.0, 5.0)]:
+            add([mn, mx, mo], ('law', 'c03', 'special'))
         add([3.0, 3.0, 3.0], ('c03',))
         for _ in range(R // 2):
             mn = rnd.uniform(-100, 100)
@@ -281,12 +284,19 @@ def family_cases(fam, ty, tier, seed):
         pts.append((big / 2.0 ** (bits / 2.0) / 4, 2.0))
         for sc, sh in pts:
             add([sc, sh])
+        # exponent-like parameters next to the identity value (a shortcut for shape == 1 must not capture neighbours)
+        for sh in [nxt(1.0, ty, 1), nxt(1.0, ty, -1), 1.0 + 1e-4, 1.0 - 1e-4, 1.0003, 0.9998, 1.01, 0.99, nxt(2.0, ty, 1), nxt(0.5, ty, -1)]:
+            add([1.0, sh], ('law', 'c03', 'special'))
+        add([2.5, 1.0003], ('law', 'c03', 'special'))
         for _ in range(R // 2):
             add([rnd.loguniform(1e-3, 1e3), rnd.loguniform(smin, 1e3)])
     elif fam == 'weibull':
         kmin = 0.05 if ty == 'f64' else 0.2
         for sc, k in [(1.0, 1.0), (1.0, 2.0), (1.0, kmin), (1.0, 1e3), (2.5, 3.0), (tiny, 1.0), (big / 1e4, 1.0), (0.5, 0.5), (1e3, 10.0), (2.0, 0.2)]:
             add([sc, k])
+        for k in [nxt(1.0, ty, 1), nxt(1.0, ty, -1), 1.0 + 1e-4, 1.0 - 1e-4, 1.0003, 0.9998, 1.01, 0.99, nxt(2.0, ty, 1), nxt(0.5, ty, -1)]:
+            add([1.0, k], ('law', 'c03', 'special'))
+        add([2.5, 0.9998], ('law', 'c03', 'special'))
         for _ in range(R // 2):
             add([rnd.loguniform(1e-3, 1e3), rnd.loguniform(kmin, 1e3)])
     elif fam == 'gumbel':
@@ -300,6 +310,9 @@ def family_cases(fam, ty, tier, seed):
         for l, s, a in [(0.0, 1.0, 1.0), (0.0, 1.0, 2.0), (0.0, 1.0, amin), (0.0, 1.0, 1e3), (2.0, 0.5, 3.0), (-1e6, 3.0, 1.0), (0.0, tiny, 1.0),
                         (1.0, 1e-3, 0.5), (-7.0, 100.0, 10.0), (0.0, 1.0, 1.0 / 3.0), (0.0, 1.0, 0.2), (5.0, 2.0, 0.5)]:
             add([l, s, a])
+        for a in [nxt(1.0, ty, 1), nxt(1.0, ty, -1), 1.0 + 1e-4, 1.0 - 1e-4, 1.0003, 0.9998, 1.01, 0.99, nxt(2.0, ty, 1), nxt(0.5, ty, -1)]:
+            add([0.0, 1.0, a], ('law', 'c03', 'special'))
+        add([2.0, 0.5, 1.0003], ('law', 'c03', 'special'))
         for _ in range(R // 2):
             add([rnd.uniform(-1e3, 1e3), rnd.loguniform(1e-3, 1e3), rnd.loguniform(amin, 1e3)])
     elif fam == 'skew_normal':
